@@ -152,8 +152,8 @@ pub fn replay_case(case: &str) -> Vec<Violation> {
 }
 
 pub fn build(quick: bool) -> PropRun {
-    let mut scs = Vec::new();
     let oracles = O_C04 | O_C01 | O_FSIZE | O_LIVE;
+    let mut scs: Vec<Scenario> = crate::pool::lw_pool(quick).into_iter().map(|mut s| { s.oracles = oracles; s.tag = format!("C04.pool.{}", s.tag); lw_scenario(s) }).collect();
     let kmax = if quick { 8 } else { 64 };
     let mut sizes: Vec<usize> = vec![0, 1, 63, 64, 255, 256];
     for k in 1..=kmax { sizes.extend([k * FRAG - 1, k * FRAG, k * FRAG + 1]); }
